@@ -242,6 +242,25 @@ def fmt_qual(repo) -> str:
         return n
 
     cands = [m for m in sorted(self_calls(meths["pprint"])) if m in meths and m in self_calls(meths[m])]
+    if len(cands) > 1:
+        # several recursive helpers: the formatter is the one whose result feeds the lines pprint() joins
+        pp = meths["pprint"]
+        joined = {a.id for c in ast.walk(pp) if isinstance(c, ast.Call) and isinstance(c.func, ast.Attribute) and c.func.attr == "join" for a in c.args if isinstance(a, ast.Name)}
+        feeds = set()
+        for st in ast.walk(pp):
+            tgt = None
+            val = None
+            if isinstance(st, ast.AugAssign) and isinstance(st.target, ast.Name):
+                tgt, val = st.target.id, st.value
+            elif isinstance(st, ast.Assign) and len(st.targets) == 1 and isinstance(st.targets[0], ast.Name):
+                tgt, val = st.targets[0].id, st.value
+            elif isinstance(st, ast.Call) and isinstance(st.func, ast.Attribute) and st.func.attr in ("extend", "append") and isinstance(st.func.value, ast.Name) and st.args:
+                tgt, val = st.func.value.id, st.args[0]
+            if tgt in joined and val is not None:
+                feeds |= {c.func.attr for c in ast.walk(val) if isinstance(c, ast.Call) and isinstance(c.func, ast.Attribute) and isinstance(c.func.value, ast.Name) and c.func.value.id == "self"}
+        narrowed = [m for m in cands if m in feeds]
+        if len(narrowed) == 1:
+            cands = narrowed
     if len(cands) != 1:
         raise AnalysisError(f"anchor vanished: the recursive block formatter pprint() calls (candidates {cands})")
     _FMT[id(repo)] = f"pprint.PrettyPrinter.{cands[0]}"
